@@ -10,6 +10,7 @@ STYLES = {
     "api": " This time, strongly prefer a change in a SECOND ENTRY POINT or REPRESENTATION that reaches the same mechanism as the obvious one: an alternative constructor or classmethod, string vs number vs object vs dict forms of the same value, from_dict/as_dict, __eq__/__hash__/__repr__/__str__, a class attribute shadowed by an instance, a subclass overriding one hook of the base class, a convenience wrapper in xknx/tools or xknx/mcp, a default argument. The obvious path must keep working.",
     "config": " This time, strongly prefer a change that only manifests under a NON-DEFAULT CONFIGURATION: a constructor / config option the tests rarely set (route_back, auto_reconnect=False, auto_reconnect_wait, rate_limit=0 or a high one, a custom multicast group or port, latency, individual_address, threaded, sync_state policies such as 'every 2' / 'expire 30' / 'init' / False, invert flags, respond_to_read, always_callback, ignore_internal_state, context_timeout, cooldown, periodic_send, travel times, setpoint shift mode/step/min/max, value ranges, local_ip / local_port, user ids) or a particular COMBINATION of two options. With the default configuration everything must keep working.",
     "thread": " This time the change must concern the THREADED interface: ConnectionConfig(threaded=True) makes XKNX use KNXIPInterfaceThreaded (xknx/io/knxip_interface.py), which runs the tunnel in a second OS thread with its own event loop and hands everything over with run_coroutine_threadsafe / call_soon_threadsafe / threading.Event / run_in_executor, and ConnectionManager.register_loop() (xknx/core/connection_manager.py) makes state changes hop to the main loop. Aim at a change in this hand-over code (start, stop, failed start and clean-up, send_cemi, cemi_received, gateway_info, connection_state_changed, the order of stopping the loop / joining the thread / disconnecting) that looks like a simplification or optimisation, keeps the non-threaded default working, and makes the threaded configuration violate the property only for some interleaving of the two threads or some event order (a frame or state change arriving during start()/stop(), a second start() after a failed one, stop() while a send is pending). Your demo may use real threads and a fake gateway on loopback UDP/TCP sockets (127.0.0.1 works in this sandbox) or may drive the classes directly.",
+    "state": " This time, strongly prefer a change that corrupts INTERNAL STATE in a way that only shows in a LATER operation: a counter, flag, cached value, pending future, timer or registry entry that is not reset / cleared / restored on an error path, a time-out path, a cancellation, a clean-up or a reconnect - so that the operation during which it happens still looks right and a following, perfectly ordinary operation (or a second session on the same object) goes wrong. The more steps lie between cause and visible effect, the better (three to five events are fine).",
     "deep": " This time, strongly prefer a change that is NOT the most obvious single-line slip in the first file listed: aim at a secondary code path (a rarely taken branch, an error/cleanup path, a helper shared by several callers, state carried over from an earlier operation, a second entry point that reaches the same mechanism, a default argument, a cache) so that the violation only shows after some history or for a narrow class of inputs/configurations.",
 }
 p = next(json.loads(l) for l in open('/verif/properties.jsonl') if json.loads(l)['id'] == pid)
